@@ -68,8 +68,22 @@ func SortedSet(m map[string]struct{}) []string {
 	return ks
 }
 
+// DeepValues counts values nested deeper than MaxDepth met by the encoder or the printer: lisp values are
+// immutable trees, so such a value can only come from an in-place mutation that made a value contain itself.
+var DeepValues int
+
+const MaxDepth = 300
+
 // Enc writes the canonical wire form of v (maps and sets sorted by key).
-func Enc(b *strings.Builder, v types.MalType) {
+func Enc(b *strings.Builder, v types.MalType) { encD(b, v, 0) }
+
+func encD(b *strings.Builder, v types.MalType, depth int) {
+	if depth > MaxDepth {
+		DeepValues++
+		b.WriteString("O ")
+		return
+	}
+	Enc := func(b *strings.Builder, v types.MalType) { encD(b, v, depth+1) }
 	switch x := v.(type) {
 	case nil:
 		b.WriteString("n ")
@@ -133,7 +147,21 @@ func EncS(v types.MalType) string {
 }
 
 // Show renders a value as deterministic lisp-like text for humans (replay files).
-func Show(v types.MalType) string {
+func Show(v types.MalType) string { return showD(v, 0) }
+
+func showD(v types.MalType, depth int) string {
+	if depth > MaxDepth {
+		DeepValues++
+		return "#<too-deep>"
+	}
+	Show := func(v types.MalType) string { return showD(v, depth+1) }
+	showAll := func(l []types.MalType) string {
+		parts := make([]string, len(l))
+		for i, e := range l {
+			parts[i] = Show(e)
+		}
+		return strings.Join(parts, " ")
+	}
 	switch x := v.(type) {
 	case nil:
 		return "nil"
